@@ -254,8 +254,16 @@ func raceScripts(r *rand.Rand, n int) []raceScript {
 		a, b := r.Intn(len(posA)), r.Intn(len(posB))
 		switch i % 10 {
 		case 0: // a superseded search must stay silent; the new go gets its own answer
-			ret = append(ret, raceScript{"plain", []string{fmt.Sprintf("gate %d", 150+r.Intn(200)), "> " + posA[a], "> go depth 4", "wait-parked",
-				fmt.Sprintf("slow %d", 100+r.Intn(300)), "> " + posB[b], "> go depth 2", fmt.Sprintf("sleep %d", 5+r.Intn(30)), "release", "wait-bestmove 8000", "quiet 1200", "sync", "alive"}, "supersede"})
+			second := []string{"> go depth 2", fmt.Sprintf("sleep %d", 5+r.Intn(30)), "release", "wait-bestmove 8000", "quiet 1200", "sync", "alive"}
+			if r.Intn(2) == 0 { // the new search is open-ended: nothing may be reported until it is stopped
+				second = []string{"> go infinite", fmt.Sprintf("sleep %d", 5+r.Intn(30)), "release", "quiet 1200", "> stop", "wait-bestmove 8000", "quiet 300", "sync"}
+			}
+			steps := []string{fmt.Sprintf("gate %d", 150+r.Intn(200)), "> " + posA[a], "> go depth 4", "wait-parked", fmt.Sprintf("slow %d", 100+r.Intn(300))}
+			if r.Intn(2) == 0 {
+				steps = append(steps, "> ucinewgame")
+			}
+			steps = append(steps, "> "+posB[b])
+			ret = append(ret, raceScript{"plain", append(steps, second...), "supersede"})
 		case 1: // stop during a search
 			ret = append(ret, raceScript{kind, []string{"slow 50", "> " + posA[a], "> go infinite", fmt.Sprintf("sleep %d", 20+r.Intn(200)), "> stop", "wait-bestmove 8000", "quiet 500", "> stop", "quiet 200", "sync"}, "infinite+stop"})
 		case 2: // isready while searching
@@ -266,7 +274,8 @@ func raceScripts(r *rand.Rand, n int) []raceScript {
 		case 4: // an old movetime timer must not halt a later search
 			ret = append(ret, raceScript{"plain", []string{"> " + posA[a], "> go depth 1 movetime 300", "wait-bestmove 4000", "> " + posB[b], "slow 200", "> go infinite", "sleep 600", "quiet 10", "> stop", "wait-bestmove 4000", "quiet 300"}, "stale movetime timer"})
 		case 5: // movetime and clocks end the search by themselves
-			g := []string{"> go movetime 150", "> go wtime 2000 btime 2000 movestogo 10", "> go wtime 1000 btime 1000", "> go infinite movetime 100"}[r.Intn(4)]
+			g := []string{"> go movetime 150", "> go wtime 2000 btime 2000 movestogo 10", "> go wtime 1000 btime 1000", "> go infinite movetime 100",
+				"> go wtime 0 btime 0", "> go wtime -35 btime 1000 movestogo 3", "> go movestogo 5", "> go wtime 1 btime 1 movestogo 1"}[(i/10)%8]
 			ret = append(ret, raceScript{kind, []string{"slow 30", "> " + posA[a], g, "wait-bestmove 9000", "quiet 400", "sync"}, "time limits"})
 		case 6: // unknown and malformed lines
 			ret = append(ret, raceScript{kind, []string{"> foo bar", "> ", "> go depth", "sync", "> go depth x", "sync", "> position fen 8/8 w - - 0 1", "sync", "> position startpos moves e2e5", "sync", "> setoption", "> debug on",
@@ -276,21 +285,26 @@ func raceScripts(r *rand.Rand, n int) []raceScript {
 		case 8: // ucinewgame / position during a search, then nothing may be reported
 			ret = append(ret, raceScript{kind, []string{"slow 100", "> " + posA[a], "> go depth 5", fmt.Sprintf("sleep %d", 10+r.Intn(50)), []string{"> ucinewgame", "> " + posB[b]}[r.Intn(2)], "sync", "quiet 1500", "> go depth 1", "wait-bestmove 8000"}, "abandon search"})
 		case 9: // bundled engines answer go with a legal move (book, noise, quiescence, depth default)
-			ret = append(ret, raceScript{kinds[2+r.Intn(4)], []string{"> " + []string{"position startpos", posA[a], posB[b]}[r.Intn(3)], "> go", "wait-bestmove 20000", "quiet 200", "> go depth 1", "wait-bestmove 20000"}, "bundled engines"})
+			k := kinds[2+r.Intn(4)]
+			first := "> go" // the historical engines have a default depth; morlock searches until stopped
+			if k == "morlock" {
+				first = "> go depth 2"
+			}
+			ret = append(ret, raceScript{k, []string{"> " + []string{"position startpos", posA[a], posB[b]}[r.Intn(3)], first, "wait-bestmove 20000", "quiet 200", "> go depth 1", "wait-bestmove 20000"}, "bundled engines"})
 		}
 	}
 	return ret
 }
 
 func genUciRace(o *Out, r *rand.Rand, thorough bool) {
-	n := 30
+	n := 80
 	if thorough {
-		n = 400
+		n = 600
 	}
 	scripts := raceScripts(r, n)
 	results := make([]string, len(scripts))
 	var wg sync.WaitGroup
-	sem := make(chan struct{}, 6)
+	sem := make(chan struct{}, 12)
 	for i := range scripts {
 		wg.Add(1)
 		sem <- struct{}{}
